@@ -43,6 +43,33 @@ def run(v, tier, rng):
         for fb in (forms if tier == "thorough" else forms[i::5]):
             for mode in (16, 32):
                 groups.append((mode, [[reps[fa]], [reps[fb]]], "skeleton-pair"))
+    # same-mnemonic pairs: statements that differ only in what the encoder keys on (accumulator vs other register,
+    # direct vs indirect address, immediate class) in both orders
+    def pool(mode):
+        w = 16 if mode == 16 else 32
+        acc8, acc, r8, r = "AL", ("AX" if mode == 16 else "EAX"), "CL", ("BX" if mode == 16 else "EBX")
+        ind = G.mem_exp("SI" if mode == 16 else "ESI", None, None, None)
+        ind2 = G.mem_exp("BX" if mode == 16 else "ESP", None, None, 4)
+        d1, d2 = G.mem_exp(None, None, None, 0x0ff0), G.mem_exp(None, None, None, 0x0ff2)
+        mv = []
+        for a8, aw in ((acc8, acc), (r8, r)):
+            for m in (ind, ind2, d1, d2):
+                mv += [("mn", "MOV", [G.reg(a8), m]), ("mn", "MOV", [m, G.reg(a8)]), ("mn", "MOV", [G.reg(aw), m]), ("mn", "MOV", [m, G.reg(aw)])]
+        alu = []
+        for op in ("ADD", "CMP", "AND"):
+            for rg in (acc, r, acc8, r8):
+                for v in (5, 1000 if rg in (acc, r) else 100, -128, 127):
+                    alu.append(("mn", op, [G.reg(rg), G.imm(v)]))
+        return mv, alu
+    import itertools
+    for mode in (16, 32):
+        mv, alu = pool(mode)
+        for fam, kind in ((mv, "mov-pair"), (alu, "alu-pair")):
+            prs = list(itertools.permutations(fam, 2))
+            if tier == "quick":
+                prs = prs[::3]
+            for a, b in prs:
+                groups.append((mode, [[a], [b]], kind))
     cases = []
     for gi, (mode, seqs, kind) in enumerate(groups):
         whole = [s for q in seqs for s in q]
